@@ -15,7 +15,7 @@ def variant : Variant := .fixed
 
 /-- pcs at which the harness cannot park the Run goroutine: infallible statements, executed at once -/
 def autoPc : Pc → Bool
-  | .setup1 _ | .setup4 _ | .initFail | .reload1 | .shut1 | .shut4 => true
+  | .setup1 _ | .setup4 _ | .initFail | .shut4 => true
   | _ => false
 
 def auto (fuel : Nat) (s : S) : S :=
@@ -52,6 +52,8 @@ def opLabels (s : S) : List String → Option (List Label)
   | ["sdfinal", o] => if s.pc = .shut3 then (okOf o).map (fun b => [.step b]) else none
   | ["prov", o] => if s.pc = .shut2 then (okOf o).map (fun b => [.step b]) else none
   | ["pick", e] => (Ev.ofName e).map (fun e => [.pick e])
+  -- gate right after the select receive: the next statement is `setCollectorState(StateClosing)`
+  | ["sel"] => if s.pc = .reload1 ∨ s.pc = .shut1 then some [.step true] else none
   | ["post", e] => (Ev.ofName e).map (fun e => [.post e])
   | ["cancel"] => some [.cancel]
   | "scen" :: _ => some []          -- race cases: scenario descriptor only (monitored, not replayed on the model)
